@@ -340,6 +340,37 @@ fn main() {
                         }
                     }
                 }
+                // every pair of bundled units: compatible_unit hands out the LEFT unit, and the total is left + right expressed in it
+                let syms: Vec<(String, cooklang::convert::PhysicalQuantity)> = c.all_units().map(|u| (u.symbol().to_string(), u.physical_quantity)).collect();
+                let mut bad_pairs = 0;
+                for (a, pa) in &syms {
+                    for (b, pb) in &syms {
+                        let (l, r) = (q(num(1.0), Some(a)), q(num(2.0), Some(b)));
+                        let cu = match std::panic::catch_unwind(|| l.compatible_unit(&r, &c)) { Ok(x) => x, Err(_) => { problems.push(format!("compatible_unit panicked on {a} / {b}")); continue; } };
+                        let msg = match (pa == pb, cu) {
+                            (true, Ok(Some(u))) => {
+                                let left = c.find_unit(a).unwrap();
+                                if !std::sync::Arc::ptr_eq(&u, &left) && u.symbol() != left.symbol() { Some(format!("compatible_unit({a}, {b}) = {} instead of the left unit", u.symbol())) }
+                                else {
+                                    let want = amount_in(&c, &r, a).map(|(x, _)| 1.0 + x);
+                                    match (l.try_add(&r, &c), want) {
+                                        (Ok(sum), Some(w)) => match (sum.unit() == Some(a.as_str()), ends(sum.value())) {
+                                            (true, Some((s, _, _))) if (s - w).abs() <= 1e-9 * (w.abs() + 1.0) => None,
+                                            _ => Some(format!("1 {a} + 2 {b} = {sum}, expected {w} {a}")),
+                                        },
+                                        (Err(e), Some(_)) => Some(format!("1 {a} + 2 {b} refused: {e}")),
+                                        (_, None) => None,
+                                    }
+                                }
+                            }
+                            (true, other) => Some(format!("compatible_unit({a}, {b}) = {:?} for units of one physical quantity", other.map(|o| o.map(|u| u.symbol().to_string())).map_err(|e| e.to_string()))),
+                            (false, Err(_)) => None,
+                            (false, Ok(x)) => Some(format!("compatible_unit({a}, {b}) accepted units of different physical quantities: {:?}", x.map(|u| u.symbol().to_string()))),
+                        };
+                        if let Some(m) = msg { bad_pairs += 1; if bad_pairs <= 3 { problems.push(m); } }
+                    }
+                }
+                if bad_pairs > 3 { problems.push(format!("... and {} more unit pairs", bad_pairs - 3)); }
                 // unitless
                 let (l, r) = (q(num(0.0004), None), q(num(0.0004), None));
                 match l.try_add(&r, &c) { Ok(sum) => match ends(sum.value()) { Some((s, _, _)) if close(s, 0.0008) => {}, o => problems.push(format!("0.0004 + 0.0004 = {:?}", o)) }, Err(e) => problems.push(format!("unitless add refused: {e}")) }
@@ -489,6 +520,26 @@ fn main() {
             let conv = if args.get(3).map(|s| s == "bundled").unwrap_or(false) { Converter::bundled() } else { Converter::empty() };
             let r = std::panic::catch_unwind(|| v.as_minutes(&conv));
             match r {
+                Ok(m) => println!("{}", json!({"minutes": m})),
+                Err(_) => println!("{}", json!({"panic": true})),
+            }
+        }
+        "time_renamed" => {
+            // time_renamed <metre|minute> <string>: the duration accessor with a converter whose time units are renamed;
+            // `m` is the metre (and no unit is called min/minute/minutes) or `m` is the minute
+            use cooklang::metadata::CooklangValueExt;
+            let time_m = if args[2] == "minute" { r#"["mn","m"]"# } else { r#"["mn"]"# };
+            let length = if args[2] == "minute" { r#"{"names":["metro"],"symbols":["mt"],"ratio":1}"# } else { r#"{"names":["metro"],"symbols":["m"],"ratio":1}"# };
+            let file = format!(r#"{{"quantity":[
+                {{"quantity":"time","best":["mn","hr"],"units":[{{"names":["minuto"],"symbols":{time_m},"ratio":60}},{{"names":["hora"],"symbols":["hr"],"ratio":3600}},{{"names":["segundo"],"symbols":["sg"],"ratio":1}}]}},
+                {{"quantity":"length","best":["km"],"units":[{length},{{"names":["kilometro"],"symbols":["km"],"ratio":1000}}]}},
+                {{"quantity":"volume","best":["lt"],"units":[{{"names":["litro"],"symbols":["lt"],"ratio":1}}]}},
+                {{"quantity":"mass","best":["gr"],"units":[{{"names":["gramo"],"symbols":["gr"],"ratio":1}}]}},
+                {{"quantity":"temperature","best":["gc"],"units":[{{"names":["grado"],"symbols":["gc"],"ratio":1}}]}}]}}"#);
+            let uf: cooklang::convert::units_file::UnitsFile = match serde_json::from_str(&file) { Ok(u) => u, Err(e) => { println!("{}", json!({"error": format!("units file: {e}")})); return; } };
+            let conv = match Converter::builder().with_units_file(uf).and_then(|b| b.finish()) { Ok(c) => c, Err(e) => { println!("{}", json!({"error": format!("builder: {e}")})); return; } };
+            let v = serde_yaml::Value::String(args[3].clone());
+            match std::panic::catch_unwind(|| v.as_minutes(&conv)) {
                 Ok(m) => println!("{}", json!({"minutes": m})),
                 Err(_) => println!("{}", json!({"panic": true})),
             }
